@@ -307,6 +307,7 @@ func (s *Stream) close() error {
 		return nil
 	}
 
+	vpo(vpStreamCloseLoaded, s, int64(oldState))
 	if atomic.CompareAndSwapUint32(&s.state, oldState, uint32(streamClosed)) {
 		vpo(vpStreamCloseCASed, s, int64(oldState))
 		if s.getCallbacks() != nil {
